@@ -18,8 +18,9 @@ class MergeAbort(Exception):
 class Restart(Exception):
     """an early-return merge turned out to be unsound to keep (a raise followed): redo without merging that if"""
 
-    def __init__(self, keys):
+    def __init__(self, keys, calls=()):
         self.keys = keys
+        self.calls = set(calls)      # callees that cannot be executed as one merged unit
 
 
 class PathEnd(Exception):
